@@ -117,11 +117,34 @@ func hashtDriver(args []string) error {
 		for i, k := range keys {
 			e.ids[htHash(k)] = i + 1
 		}
+		// every second sequence runs under memory pressure: before a call every page may be made clean (FlushAllPages), after
+		// it every unpinned page may be pushed out of the 16-frame pool by a sweep over 20 filler pages - a change that is
+		// unpinned as clean is then lost (seeded changes C17r4-A / C09r2-B: Remove unpins its block page clean)
+		pressure := q%2 == 1
+		fillers := []types.PageID{}
+		if pressure {
+			for i := 0; i < 20; i++ {
+				if pg := bpm.NewPage(); pg != nil {
+					fillers = append(fillers, pg.GetPageID())
+					bpm.UnpinPage(pg.GetPageID(), true)
+				}
+			}
+		}
+		sweep := func() {
+			for _, id := range fillers {
+				if pg := bpm.FetchPage(id); pg != nil {
+					bpm.UnpinPage(id, false)
+				}
+			}
+		}
 		tw.Emit(map[string]interface{}{"ev": "Reset", "q": q, "homes": homes, "slots": e.slots()})
 		live := map[int]int{} // value -> key id
 		nextVal := 0
 		for n := 0; n < nops; n++ {
 			ev := map[string]interface{}{"ev": "HOp", "q": q, "panic": "", "k": 0, "v": 0, "res": "", "vals": []int{}}
+			if pressure && rng.Intn(2) == 0 {
+				bpm.FlushAllPages()
+			}
 			func() {
 				defer func() {
 					if x := recover(); x != nil {
@@ -166,6 +189,9 @@ func hashtDriver(args []string) error {
 					ev["vals"] = vals
 				}
 			}()
+			if pressure && rng.Intn(2) == 0 {
+				sweep()
+			}
 			ev["slots"] = e.slots()
 			tw.Emit(ev)
 			if ev["panic"] != "" {
